@@ -1,5 +1,16 @@
 package main
 
+import (
+	"encoding/json"
+	"go/ast"
+	"go/parser"
+	"go/token"
+	"os"
+	"path/filepath"
+	"sort"
+	"strings"
+)
+
 // Registry of exploration roots per property and tier, with the bounds and
 // assumptions reported in the evidence.
 
@@ -147,7 +158,8 @@ func rootsFor(prop, tier string) []Root {
 						continue
 					}
 					rs = append(rs, Root{Prop: prop, Harness: "VH_C05_Stream", Params: []int{cause, n, ahead, 0}, MaxDecs: 4000, MaxSteps: 30000000})
-					if thorough && n >= 1 {
+					if n >= 1 && (thorough || ahead == 0) {
+						// handler that is still running while the rest of the system moves on (yields inside the call)
 						rs = append(rs, Root{Prop: prop, Harness: "VH_C05_Stream", Params: []int{cause, n, ahead, 1}, MaxDecs: 4000, MaxSteps: 30000000})
 					}
 				}
@@ -379,16 +391,28 @@ func rootsFor(prop, tier string) []Root {
 	return rs
 }
 
+// boundsFor reads the stated bounds of a property/tier from /verif/bounds.json (kept next to the
+// registry above; the roots actually explored are listed in the evidence as root_list_head / roots).
 func boundsFor(prop, tier string) map[string]interface{} {
-	thorough := tier == "thorough"
-	switch prop {
-	case "C17":
-		if thorough {
-			return map[string]interface{}{"buffer_length": "0..300, every byte symbolic"}
-		}
-		return map[string]interface{}{"buffer_length": "0..64, every byte symbolic"}
+	out := map[string]interface{}{}
+	data, err := os.ReadFile(filepath.Join(verifDir, "bounds.json"))
+	if err != nil {
+		return out
 	}
-	return map[string]interface{}{}
+	var all map[string]map[string]interface{}
+	if json.Unmarshal(data, &all) != nil {
+		return out
+	}
+	b := all[prop]
+	if b == nil {
+		return out
+	}
+	for _, k := range []string{tier, "outside_the_claim", "stubs_in_the_claim", "unwinding", "race_monitor", "native_replay"} {
+		if v, ok := b[k]; ok {
+			out[k] = v
+		}
+	}
+	return out
 }
 
 func assumptionsFor(prop string) []string {
@@ -398,4 +422,65 @@ func assumptionsFor(prop string) []string {
 		"contract models for strconv/fmt/time/sync used as listed in DESIGN.md 2.3",
 	}
 	return common
+}
+
+// harnessAssumes lists, from the harness sources, the vhAssume(...) preconditions inside the harness
+// functions that were executed in this run (so the evidence shows exactly what was assumed).
+func harnessAssumes(hdir string, executed []string) []string {
+	short := map[string]bool{}
+	for _, f := range executed {
+		if i := strings.LastIndex(f, "."); i >= 0 {
+			f = f[i+1:]
+		}
+		if i := strings.Index(f, "$"); i >= 0 {
+			f = f[:i]
+		}
+		short[f] = true
+	}
+	var out []string
+	seen := map[string]bool{}
+	fset := token.NewFileSet()
+	for _, sub := range []string{"gobinlog", "replication"} {
+		ents, _ := os.ReadDir(filepath.Join(hdir, sub))
+		for _, ent := range ents {
+			if !strings.HasSuffix(ent.Name(), ".go") {
+				continue
+			}
+			path := filepath.Join(hdir, sub, ent.Name())
+			src, err := os.ReadFile(path)
+			if err != nil {
+				continue
+			}
+			file, err := parser.ParseFile(fset, path, src, 0)
+			if err != nil {
+				continue
+			}
+			for _, d := range file.Decls {
+				fd, ok := d.(*ast.FuncDecl)
+				if !ok || fd.Body == nil || !short[fd.Name.Name] {
+					continue
+				}
+				ast.Inspect(fd.Body, func(n ast.Node) bool {
+					ce, ok := n.(*ast.CallExpr)
+					if !ok {
+						return true
+					}
+					id, ok := ce.Fun.(*ast.Ident)
+					if !ok || id.Name != "vhAssume" || len(ce.Args) != 1 {
+						return true
+					}
+					a, b := fset.Position(ce.Args[0].Pos()).Offset, fset.Position(ce.Args[0].End()).Offset
+					txt := strings.Join(strings.Fields(string(src[a:b])), " ")
+					s := "assume in " + fd.Name.Name + ": " + txt
+					if !seen[s] && len(out) < 120 {
+						seen[s] = true
+						out = append(out, s)
+					}
+					return true
+				})
+			}
+		}
+	}
+	sort.Strings(out)
+	return out
 }
